@@ -25,7 +25,9 @@ EomaOk(dll, d, size, pgn) ==
 DmAccept(dm, n, a) ==
     LET da == IF a.ps = GLOBAL \/ IsPdu2(a.pf) THEN GLOBAL ELSE a.ps
         m == [src |-> n, sa |-> a.sa, da |-> da, pgn |-> PgnOf(a.dp, a.pf, a.ps), data |-> a.data,
-              cm |-> (Len(a.data) > (IF dm.dll = 21 THEN 8 ELSE 60) /\ da # GLOBAL), sub |-> dm.nsub + 1]
+              cm |-> (Len(a.data) > (IF dm.dll = 21 THEN 8 ELSE 60) /\ da # GLOBAL), sub |-> dm.nsub + 1,
+              t |-> (IF "t" \in DOMAIN a THEN a.t ELSE 0), tl |-> (IF "tl" \in DOMAIN a THEN a.tl ELSE 0),
+              ff |-> (IF "ff" \in DOMAIN a THEN a.ff ELSE 3)]
     IN [dm EXCEPT !.acc = Append(@, m), !.nsub = @ + 1]
 \* a submission that send_pgn refused (returned False)
 DmRefuse(dm) == [dm EXCEPT !.nsub = @ + 1, !.refused = @ \cup {dm.nsub + 1}]
@@ -55,7 +57,8 @@ DmDeliver(dm, cfgs, n, h) ==
 
 \* at the end of a scenario in which nothing was lost: everything arrived everywhere
 Undelivered(dm, tr, i) ==
-    \E m \in DOMAIN tr.cfg : \E j \in 1..Len(tr.cfg[m].lst) :
+    /\ dm.acc[i].ff # 2            \* base-format (FBFF) multi-PG frames are not received by the stacks
+    /\ \E m \in DOMAIN tr.cfg : \E j \in 1..Len(tr.cfg[m].lst) :
         /\ m # dm.acc[i].src
         /\ Reaches(tr.cfg[m], tr.cfg[m].lst[j], dm.acc[i].da)
         /\ <<i, m, tr.cfg[m].lst[j].tag>> \notin dm.got
